@@ -23,6 +23,8 @@ import (
 	"github.com/enbility/spine-go/api"
 	"github.com/enbility/spine-go/model"
 	"github.com/enbility/spine-go/spine"
+
+	"verifharness/h"
 )
 
 // ---------------------------------------------------------------- list types
@@ -907,6 +909,45 @@ func (t *hpType) c04(rep specSink, ops []string, w *hpWrite, before, after [][]i
 				break
 			}
 		}
+	}
+}
+
+// c04Lean: clauses 3 and 4 of C04 judged by the compiled Lean SPEC functions (the very definitions the theorems
+// c04_success_all_applied_store / c04_error_unchanged_exact are stated with) on the IMPLEMENTATION's own data.
+//   - success: the data after the write must be partialApplied (delPhaseApplied before) - the complete application;
+//   - error:   inside the exact region (no delete elements, no writable element addressed on an in-place path) the
+//     data must be unchanged. Outside it the known findings rejected-but-applied:* live (judged by c04 above).
+//
+// The driver must carry the shape of t and the probed cfg (true for x.d, x.d2 and the world's store drivers).
+func (t *hpType) c04Lean(d *h.Driver, rep specSink, ops []string, w *hpWrite, before, after [][]int, v hpVerdict) {
+	if d == nil || !w.remote || !w.persist || v == hpPanic || !t.viaEngine(w) {
+		return
+	}
+	for _, l := range [][][]int{before, after} {
+		if len(l) > 12 { // beyond insertion sort the order of equal keys is Go's choice
+			return
+		}
+	}
+	line := fmt.Sprintf("judge %d %s %s %s %s %s %s %s %s %s", h_b2i(v == hpOK), hpListS(before), hpListS(after), hpListS(w.items),
+		w.fpk, hpOptItemS(w.fps), hpOptItemS(w.fpe), w.fdk, hpOptItemS(w.fds), hpOptItemS(w.fde))
+	ans := d.Ask(line)
+	shape := t.shapeName(w)
+	if e, ok := rep.(interface{ Eval(string, string) }); ok {
+		cls := ans
+		if i := strings.Index(ans, " expect="); i >= 0 {
+			cls = ans[:i]
+		}
+		e.Eval("lean-judge:"+strings.ReplaceAll(cls, " ", ","), "")
+	}
+	switch {
+	case ans == "fast":
+	case strings.HasPrefix(ans, "applied=1"), strings.HasPrefix(ans, "region=out"), strings.HasSuffix(ans, "unchanged=1"):
+	case strings.HasPrefix(ans, "applied=0"):
+		rep.SpecFail("C04/success-but-not-applied:"+shape, ops, fmt.Sprintf("%s: write answered with success but the data is not the complete application of the write (c04_success_all_applied_store): before=%s after=%s %s", t.fn, hpListS(before), hpListS(after), ans))
+	case strings.HasPrefix(ans, "region=in"):
+		rep.SpecFail("C04/rejected-but-applied-outside-known-region:"+shape, ops, fmt.Sprintf("%s: write answered with an error, no delete elements and no writable element addressed on an in-place path, and yet the data changed (c04_error_unchanged_exact): before=%s after=%s", t.fn, hpListS(before), hpListS(after)))
+	default:
+		panic("drv_heap judge: " + ans + " for " + line)
 	}
 }
 
